@@ -346,17 +346,16 @@ func defGenericMethod(s *slip.Scope, fname slip.Symbol, args slip.List, aux *Aux
 func addMethodCaller(aux *Aux, fname, qualifier, key string, caller slip.Caller, fd *slip.FuncDoc) *slip.Method {
 	aux.moo.Lock()
 	defer aux.moo.Unlock()
-	meth := aux.methods[key]
-	if meth == nil {
-		meth = &slip.Method{Name: fname, Doc: fd}
-		aux.methods[key] = meth
-	}
-	var c *slip.Combination
-	if 0 < len(meth.Combinations) {
-		c = meth.Combinations[0]
-	} else {
-		c = &slip.Combination{}
-		meth.Combinations = []*slip.Combination{c}
+	// Methods and combinations in the methods map are never modified in
+	// place. A call that is in progress (possibly in another routine) keeps
+	// using the combinations it started with.
+	var c slip.Combination
+	doc := fd
+	if meth := aux.methods[key]; meth != nil {
+		doc = meth.Doc
+		if 0 < len(meth.Combinations) {
+			c = *meth.Combinations[0]
+		}
 	}
 	switch qualifier {
 	case "":
@@ -368,6 +367,8 @@ func addMethodCaller(aux *Aux, fname, qualifier, key string, caller slip.Caller,
 	case ":around":
 		c.Wrap = caller
 	}
+	meth := &slip.Method{Name: fname, Doc: doc, Combinations: []*slip.Combination{&c}}
+	aux.methods[key] = meth
 	if 0 < len(aux.cache) {
 		aux.cache = map[string]*slip.Method{}
 	}
